@@ -24,6 +24,13 @@ func TempDir() string {
 	return d
 }
 
+// storage.FromConfig (used by server.FullAssembly) looks the back-ends up here; cmd/inbucket
+// registers the same two in its init.
+func init() {
+	storage.Constructors["file"] = file.New
+	storage.Constructors["memory"] = mem.New
+}
+
 // NewMem builds a memory store.
 func NewMem(host *extension.Host, cap int, maxKB int) storage.Store {
 	params := map[string]string{}
